@@ -350,7 +350,9 @@ pub fn check_call(call: &Call, st: &mut Stats) -> Result<(), String> {
                         return Err(format!("cell_to_children({:#x}, {:?}) returned {:#x} of resolution {} (requested {})", id, res, k, kc.res, target));
                     }
                 }
-                if let Some((ac, canon)) = alias(*id) {
+                // a target coarser than the cell is outside C07's domain (res(c) <= r'): the statement asks for an
+                // error or canonical IDs of the requested resolution (checked above), not for a particular set
+                if let Some((ac, canon)) = alias(*id).filter(|(ac, _)| target >= ac.res) {
                     let mut want: Vec<u64> = tree::descendants(&ac, target).iter().map(codec::encode).collect();
                     let mut got = v.clone();
                     want.sort_unstable();
